@@ -611,9 +611,9 @@ def instances(tier):
                     lays = ALL if (mod in (2 ** no, 2 ** no - 1) and (nx, ny, no) in ((2, 2, 2), (2, 1, 2))) else SEQ
                     add("OutMultiplier", {"nx": nx, "ny": ny, "no": no, "mod": mod, "ww": ww, "z": z}, lays)
     # --- SignedOutMultiplier
-    sizes = [(1, 1, 2), (2, 1, 2), (2, 2, 2), (2, 2, 3), (2, 2, 4)]
+    sizes = [(1, 1, 2), (2, 1, 2), (2, 2, 2), (2, 2, 3)]
     if thorough:
-        sizes += [(3, 2, 3), (3, 2, 4), (3, 3, 3), (2, 3, 5)]
+        sizes += [(2, 2, 4), (3, 2, 3), (3, 2, 4), (3, 3, 3), (2, 3, 5)]
     for nx, ny, no in sizes:
         for z in (1, 0):
             wws = [2, no + 2] if z else ([2 * no + 1, 2 * no + 2] if thorough else [2 * no + 1])
@@ -651,7 +651,9 @@ def instances(tier):
         else:
             size_menu = [[1, 1], [2, 1], [1, 2], [2, 2]]
         for sizes_ in size_menu:
-            for no in ((2, 3) if thorough else (2, 3)):
+            for no in (2, 3):
+                if no == 3 and not thorough and sum(sizes_) > 3:
+                    continue
                 mods = range(2, 2 ** no + 1) if (thorough or no == 2) else (5, 7, 8)
                 for mod in mods:
                     ww = 0 if mod == 2 ** no else 2
